@@ -1,2 +1,120 @@
-(** placeholder while the harness is developed; replaced by the theorems *)
-From SP Require Import SM.SMGate.
+(** C29 - SMGen either refuses a design or returns valid sequences.
+
+    Model: SM/SMGate.v - the decision logic of sampling_strategy/smgen.py and of the
+    structural checks of scattered_map_core.py that precede the search: refusal with
+    the unsupported-feature error, crash, or [Accept p] with the parameters of the run
+    (level duplication for weights / MinimumTrials, [M], the preamble row,
+    [maximum_trials], the resulting column length [p_length], the constraints handed
+    to the search core [p_handed] - always none - and the user constraints that are
+    neither refused nor handed over [p_ignored]).  Compared with the real SMGen on
+    every run by harness/props/c29.py.
+
+    PARTIAL: the randomised backtracker and its [threading.Timer] are not modelled; the
+    validity of the sequences it returns is decided per run by the reference oracle,
+    and the quantifier over timer interleavings is outside any executable model.
+
+    The full statement [gate_implies_supported]
+
+      forall s p k, gate s = Accept p -> In k (sm_constraints s) -> user_kind k = true ->
+                    In k (p_handed p)
+
+    ("everything the gate lets through is enforced by the core") is FALSE of the model,
+    as it is of the code: [C29_gate_refuted] and its siblings; the true part is
+    [C29_gate_refuses_unsupported] / [C29_refused_never_ignored].  Likewise the length:
+    [C29_sm_length] holds for plain CrossBlocks whose first non-derived design factor is
+    crossed; [C29_sm_length_repeat_refuted], [C29_sm_length_uncrossed_refuted] are the
+    failing cases.  Proofs: SM/SMGateProofs.v. *)
+From Coq Require Import List Bool Arith.
+From SP Require Import SM.SMGate SM.SMGateProofs.
+Import ListNotations.
+
+(** a design with an AtMostKInARow, AtLeastKInARow, ExactlyK, Exclude or Pin constraint is refused *)
+Theorem C29_gate_refuses_unsupported : forall s k,
+  sm_is_block s = true -> sm_ncrossings s = 1 ->
+  In k (sm_constraints s) -> refused_kind k = true ->
+  exists k', gate s = Refuse (RConstraint k') /\ refused_kind k' = true /\ In k' (sm_constraints s).
+Proof. exact SMGateProofs.gate_refuses_unsupported. Qed.
+Print Assumptions C29_gate_refuses_unsupported.
+
+Theorem C29_gate_refuses_multicross : forall s,
+  sm_is_block s = true -> sm_ncrossings s <> 1 -> gate s = Refuse RMultiCross.
+Proof. exact SMGateProofs.gate_refuses_multicross. Qed.
+Print Assumptions C29_gate_refuses_multicross.
+
+(** a derived factor whose first level is neither a Transition nor a WithinTrial window *)
+Theorem C29_gate_refuses_window : forall s f,
+  sm_is_block s = true -> sm_ncrossings s = 1 ->
+  (forall k, In k (sm_constraints s) -> refused_kind k = false) ->
+  unsupported_level s = Some f -> gate s = Refuse (RLevel f).
+Proof. exact SMGateProofs.gate_refuses_window. Qed.
+Print Assumptions C29_gate_refuses_window.
+
+Theorem C29_refused_never_ignored : forall s k, refused_kind k = true -> ignored_by_gate s k = false.
+Proof. exact SMGateProofs.refused_never_ignored. Qed.
+Print Assumptions C29_refused_never_ignored.
+
+Example C29_refuse_example :
+  gate {| sm_is_block := true; sm_ncrossings := 1; sm_constraints := [KCross; KConsistency; KSequential; KPin; KAtMost];
+          sm_crossing_weight := 1; sm_trials := 4; sm_design := [plain_factor 2; plain_factor 2]; sm_crossing := [0; 1] |}
+  = Refuse (RConstraint KPin).
+Proof. reflexivity. Qed.
+
+(** an accepted design: no refused kind, nothing is handed to the core, every user constraint is ignored *)
+Theorem C29_gate_hands_nothing : forall s p, gate s = Accept p ->
+  sm_ncrossings s = 1 /\ (forall k, In k (sm_constraints s) -> refused_kind k = false) /\
+  p_handed p = [] /\ p_ignored p = filter user_kind (sm_constraints s).
+Proof. exact SMGateProofs.gate_accept_facts. Qed.
+Print Assumptions C29_gate_hands_nothing.
+
+(** REFUTED: a design with ExactlyKInARow (Sequential, LatinSquare) passes the gate although the
+    constraint is not handed to the core *)
+Theorem C29_gate_refuted : exists s p,
+  gate s = Accept p /\ In KExactlyKInARow (sm_constraints s) /\ user_kind KExactlyKInARow = true /\
+  ~ In KExactlyKInARow (p_handed p) /\ p_length p = sm_trials s /\ ignored_by_gate s KExactlyKInARow = true.
+Proof. exact SMGateProofs.gate_refuted. Qed.
+Print Assumptions C29_gate_refuted.
+
+Theorem C29_gate_refuted_sequential : exists s, ignored_by_gate s KSequential = true.
+Proof. exact SMGateProofs.gate_refuted_sequential. Qed.
+Print Assumptions C29_gate_refuted_sequential.
+
+Theorem C29_gate_refuted_latin : exists s, ignored_by_gate s KLatin = true.
+Proof. exact SMGateProofs.gate_refuted_latin. Qed.
+Print Assumptions C29_gate_refuted_latin.
+
+(** length of the returned sequences of an accepted plain CrossBlock: [base_size] is the crossing
+    size, [preamble] = 1 iff a transition is crossed; the three arithmetic hypotheses are the
+    trial-count and crossing-weight rules of a (single) CrossBlock, checked per program by the
+    harness; the last one says that the level duplication hits a crossed factor *)
+Theorem C29_sm_length : forall s p, gate s = Accept p ->
+  0 < base_size s -> base_size s + preamble s <= sm_trials s ->
+  sm_crossing_weight s = (sm_trials s - preamble s + base_size s - 1) / base_size s ->
+  (sm_crossing_weight s <= 1 \/
+   exists i0, first_primary 0 (sm_design s) = Some i0 /\ count_occ Nat.eq_dec (sm_crossing s) i0 = 1) ->
+  p_length p = sm_trials s.
+Proof. exact SMGateProofs.sm_length. Qed.
+Print Assumptions C29_sm_length.
+
+Example C29_sm_length_example :
+  let s := {| sm_is_block := true; sm_ncrossings := 1; sm_constraints := [KCross; KConsistency; KMinimumTrials; KDerivation; KDerivation];
+              sm_crossing_weight := 2; sm_trials := 7;
+              sm_design := [plain_factor 2; plain_factor 2;
+                            {| sf_derived := true; sf_window := WTransition; sf_args := [Some 0]; sf_weights := [1; 1] |}];
+              sm_crossing := [1; 2] |} in
+  base_size s = 4 /\ preamble s = 1 /\ sm_crossing_weight s = (sm_trials s - preamble s + base_size s - 1) / base_size s /\
+  first_primary 0 (sm_design s) = Some 0 /\
+  exists p, gate s = Accept p /\ p_M p = 4 /\ p_length p = 5.
+Proof. cbn. repeat split. eexists. split; [vm_compute; reflexivity|]. split; reflexivity. Qed.
+
+(** REFUTED without the hypotheses: Repeat keeps crossing weight 1 ... *)
+Theorem C29_sm_length_repeat_refuted : exists s p, gate s = Accept p /\ p_length p = 2 /\ sm_trials s = 4.
+Proof. exact SMGateProofs.sm_length_repeat_refuted. Qed.
+Print Assumptions C29_sm_length_repeat_refuted.
+
+(** ... and the duplication is applied to the first non-derived factor even if it is not crossed *)
+Theorem C29_sm_length_uncrossed_refuted : exists s p,
+  gate s = Accept p /\ p_length p = 2 /\ sm_trials s = 6 /\
+  0 < base_size s /\ base_size s + preamble s <= sm_trials s /\
+  sm_crossing_weight s = (sm_trials s - preamble s + base_size s - 1) / base_size s.
+Proof. exact SMGateProofs.sm_length_uncrossed_refuted. Qed.
+Print Assumptions C29_sm_length_uncrossed_refuted.
